@@ -219,13 +219,28 @@ Inductive ccond := CTrue | CHolds (p : piece) | CHoldsNot (p : piece).
 Definition chain := list (ccond * list piece).       (* first branch whose test holds is executed *)
 Definition cprog := list chain.                      (* executed in sequence *)
 
+(* which readouts make the per-step `detector.empty(<flag>)` of the run loop a full reset (pixel included):
+   LIfDestructive = `not detector.non_destructive_readout` (as it should be), the others are what a changed loop
+   could say *)
+Inductive reset_policy := LIfDestructive | LIfNonDestructive | LAlways | LNever.
+Definition loop_reset (p : reset_policy) (nd : bool) : bool :=
+  match p with LIfDestructive => negb nd | LIfNonDestructive => nd | LAlways => true | LNever => false end.
+Definition reset_policy_eqb (a b : reset_policy) : bool :=
+  match a, b with
+  | LIfDestructive, LIfDestructive | LIfNonDestructive, LIfNonDestructive | LAlways, LAlways | LNever, LNever => true
+  | _, _ => false
+  end.
+
 (* Detector.empty(reset): the containers emptied unconditionally and those emptied only `if reset:`; what
-   emptying each container does to its pieces; and whether reading Charge.array stores the array derived
-   from the particles back into _array (run_pipeline reads it when it extracts the result of a step) *)
+   emptying each container does to its pieces; whether reading Charge.array stores the array derived
+   from the particles back into _array (run_pipeline reads it when it extracts the result of a step);
+   and how run_pipeline uses it: is there a full `detector.empty()` between set_readout and the loop, which
+   per-step reset flag does the loop pass, and does the deprecated copy of the loop do the same *)
 Record empty_table := { e_always : list bucket; e_if_reset : list bucket;
                         e_scene : cprog; e_photon : cprog; e_charge : cprog; e_pixel : cprog;
                         e_signal : cprog; e_image : cprog;
-                        e_read_stores : bool }.
+                        e_read_stores : bool;
+                        e_init_reset : bool; e_loop_reset : reset_policy; e_old_loop_same : bool }.
 Definition e_prog (E : empty_table) (b : bucket) : cprog :=
   match b with
   | Scene => e_scene E | Photon => e_photon E | Charge => e_charge E
@@ -361,11 +376,14 @@ Section Lifecycle.
     | (t, st) :: rest =>
         let ck := {| c_time := t; c_step := st; c_abs := tadd start t; c_count := i;
                      c_first := Z.eqb i 0%Z; c_last := Z.eqb i (n - 1)%Z |} in
-        let d1 := det_empty E (negb nd) d in          (* detector.empty(is_destructive_readout) *)
+        let d1 := det_empty E (loop_reset (e_loop_reset E) nd) d in   (* detector.empty(is_destructive_readout) *)
         let d2 := prog ck d1 in                        (* processor.run_pipeline() *)
         {| o_clock := ck; o_begin := d1; o_end := d2 |}
           :: run_loop E prog nd start n (i + 1)%Z rest (det_extract E d2)      (* _extract_datatree_2d *)
     end.
+
+  (* `detector.empty()` between set_readout and the loop *)
+  Definition det_init (E : empty_table) (d0 : det) : det := if e_init_reset E then det_empty E true d0 else d0.
 
   Inductive outcome :=
   | Rejected (stage : Z)                (* 0 constructor, 1 setter / replace, 2 set_readout at run start;
@@ -381,7 +399,7 @@ Section Lifecycle.
         if guards_pass (g_rp G) (r_start ro) (R1 ts)
         then let sts := steps (r_start ro) ts in
              Ran (run_loop E prog (r_nd ro) (r_start ro) (Z.of_nat (length sts)) 0%Z (combine ts sts)
-                           (det_empty E true d0))
+                           (det_init E d0))
         else Rejected 2
     | R2 => Rejected 2      (* ndim guard, or np.concatenate in calculate_steps *)
     end.
@@ -412,7 +430,7 @@ Section Lifecycle.
     | [] => ([], (d, p))
     | (t, st) :: rest =>
         let p1 := rp_tick p t st i in
-        let d1 := det_empty E (negb (rp_nd p1)) d in
+        let d1 := det_empty E (loop_reset (e_loop_reset E) (rp_nd p1)) d in
         let d2 := prog (rp_clock p1) d1 in
         let (os, fin) := obj_loop E prog (i + 1)%Z rest p1 (det_extract E d2) in
         ({| o_clock := rp_clock p1; o_begin := d1; o_end := d2 |} :: os, fin)
@@ -426,7 +444,7 @@ Section Lifecycle.
     | None => (Rejected 2, st)
     | Some p =>
         let (os, fin) := obj_loop E prog 0%Z (combine (rp_times p) (rp_steps p)) p
-                                  (det_empty E true (ds_det st)) in
+                                  (det_init E (ds_det st)) in
         (Ran os, {| ds_det := fst fin; ds_rp := Some (snd fin) |})
     end.
 
@@ -565,11 +583,14 @@ Definition cprog_ok (b : bucket) (pr : cprog) : bool :=
     final_ok b s0 (srun pr s0)) two) two) two) two) two) two) two.
 
 (* Detector.empty(reset) empties scene / photon / charge / signal / image always and pixel exactly `if reset`,
-   and every container's empty() re-initialises all of the container, unconditionally in effect *)
+   every container's empty() re-initialises all of the container, unconditionally in effect, and the run loop
+   (and its deprecated copy) resets the detector once before the first step and passes `is destructive` as the
+   per-step reset flag *)
 Definition empty_table_ok (E : empty_table) : bool :=
   forallb (fun b => bmem b (e_always E)) [Scene; Photon; Charge; Signal; Image]
   && negb (bmem Pixel (e_always E)) && bmem Pixel (e_if_reset E)
-  && forallb (fun b => cprog_ok b (e_prog E b)) all_buckets.
+  && forallb (fun b => cprog_ok b (e_prog E b)) all_buckets
+  && e_init_reset E && reset_policy_eqb (e_loop_reset E) LIfDestructive && e_old_loop_same E.
 
 (* ------------------------------------------------------------------------------------------------ *)
 (* 6. executable instance used by the correspondence leg: constant frames, A := Z                     *)
@@ -718,3 +739,14 @@ Definition mismatches (G : guard_table) (E : empty_table) (SR : sr_policy) (cs :
 Definition violations (cs : list c02_case) : list Z := indices_where case_violates cs 0%Z.
 Definition after_differs (G : guard_table) (E : empty_table) (SR : sr_policy) (cs : list c02_case) : list Z :=
   indices_where (case_after_differs G E SR) cs 0%Z.
+
+(* differential judgement used when the correspondence breaks: the same writes made (a) in step i of a run and
+   (b) in the only step of a run on a fresh detector must leave the same content in every container that the
+   step started empty -- all of them, except the pixel array of a non-destructive readout.  Each item: mode, the
+   observed end of the step, the observed end of its control. *)
+Definition ends_differ (nd : bool) (a b : det Z) : bool :=
+  negb (oz_eqb (scene a) (scene b) && oz_eqb (photon a) (photon b) && oz_eqb (charge a) (charge b)
+        && oz_eqb (cframe a) (cframe b) && (nd || oz_eqb (pixel a) (pixel b))
+        && oz_eqb (signal a) (signal b) && oz_eqb (image a) (image b)).
+Definition history_dependent (l : list (bool * (det Z * det Z))) : list Z :=
+  indices_where (fun x => ends_differ (fst x) (fst (snd x)) (snd (snd x))) l 0%Z.
